@@ -4,6 +4,7 @@ from .sqlalchemy_ import sa
 
 from autoconf import conf
 from .aggregator import *
+from .migration import SessionWrapper
 from .migration.steps import migrator
 from .model import *
 
@@ -89,4 +90,6 @@ def open_database(
         )
     else:
         Base.metadata.create_all(engine)
+        SessionWrapper(session).revision_id = migrator.latest_revision.id
+        session.commit()
     return session
